@@ -1,1 +1,64 @@
-fn main() {}
+//! xcdr engine: C07 (decoder totality, in the library), C09 round trip, C10 differential against the
+//! reference encoder, C11 / C12 instance identity and key hash, C39 type evolution, `calibrate`.
+mod c09;
+mod c10;
+mod c11;
+mod c39;
+mod calib;
+mod common;
+mod dustrun;
+mod refenc;
+mod supervise;
+
+use vcore::{Json, Report};
+
+fn write_report(rep: Report, out: &str) -> i32 {
+    rep.write(out);
+    0
+}
+
+fn calibrate(out: &str) -> i32 {
+    let r = calib::run();
+    let j = Json::obj()
+        .set("vectors_reproduced", r.passed)
+        .set("adjudicated_divergences_confirmed", r.diverged_as_adjudicated)
+        .set("key_hash_vectors_reproduced", r.key_passed)
+        .set("failures", r.failures.clone());
+    if out == "-" || out.is_empty() {
+        println!("{}", j.to_string());
+    } else {
+        let _ = std::fs::write(out, j.to_string());
+    }
+    if r.failures.is_empty() { 0 } else { 1 }
+}
+
+fn main() {
+    let args = vcore::Args::parse();
+    let cmd = args.pos.first().cloned().unwrap_or_default();
+    if cmd == "c07" {
+        std::process::exit(xcdrlib::c07::main(&args));
+    }
+    if cmd == "calibrate" {
+        std::process::exit(calibrate(&args.str("out", "-")));
+    }
+    let cli = match common::Cli::from_args(&args) {
+        Ok(c) => c,
+        Err(e) => {
+            let mut rep = Report::new(&cmd.to_uppercase());
+            rep.inconclusive(format!("bad arguments: {e}"));
+            std::process::exit(write_report(rep, &args.str("out", "-")));
+        }
+    };
+    let rep = match cmd.as_str() {
+        "c09" => c09::run(&cli),
+        "c10" => c10::run(&cli),
+        "c11" => c11::run_c11(&cli),
+        "c12" => c11::run_c12(&cli),
+        "c39" => c39::run(&cli),
+        _ => {
+            eprintln!("usage: xcdr <c07|c09|c10|c11|c12|c39|calibrate> --seed S --shard I --nshards N --cases C --tier T --out FILE [--replay FILE]");
+            std::process::exit(2);
+        }
+    };
+    std::process::exit(write_report(rep, &cli.out));
+}
